@@ -339,10 +339,16 @@ type Cfg struct {
 	Retry  bool   // RetryCertAfterInError
 	Hist   int
 	Faults bool // install the storage-fault triggers (C13)
+	// NoPrevLER: the model Agglayer's headers omit the (optional) previous local exit root
+	NoPrevLER bool
 }
 
 func (c Cfg) String() string {
-	return fmt.Sprintf("flow=%s,retry=%v,l2=%s", c.Flow, c.Retry, HistoryNames[c.Hist])
+	s := fmt.Sprintf("flow=%s,retry=%v,l2=%s", c.Flow, c.Retry, HistoryNames[c.Hist])
+	if c.NoPrevLER {
+		s += ",headers-without-prev-ler"
+	}
+	return s
 }
 
 type node struct {
